@@ -5,7 +5,7 @@
    repaired one).  The oracles are instantiated by constant functions; any
    other choice works as well. *)
 From Coq Require Import ZArith List Bool.
-From VV Require Import Csv.CsvDefs.
+From VV Require Import Csv.CsvDefs Csv.StateDefs Csv.StateProofs.
 Import ListNotations.
 Local Open Scope Z_scope.
 
@@ -59,3 +59,17 @@ Example C10_witnesses_fixed :
                          {| c_name := []; c_domain := DDouble; c_states := [] |} ];
             classes := []; dataset := [ {| e_input := [VDouble 0; VDouble 0]; e_output := VDouble 0 |} ] |}.
 Proof. vm_compute. split; reflexivity. Qed.
+
+(* Where "symbol set matches the frame" stops (state after reads on an existing src_problem;
+   behaviour of the code, not repaired: the caller must call setup_symbols() after a
+   SUCCESSFUL read).  All by vm_compute on "1,2,\n3,4,\n" followed by further reads:
+   - after a read that FAILS (a bad cell / a column that appears late) the frame keeps
+     examples whose width differs from the number of variables;
+   - setup_symbols() on such a failed frame returns normally but a generated variable is out
+     of range on a stored example (the check's harness does not run it);
+   - even a read that returns normally leaves the OLD symbol set inconsistent when it turns
+     a void column into a live one -- hence the setup_symbols premise of
+     C10_src_problem_symbols_match_frame. *)
+Example C10_symbols_after_failed_read_refuted :=
+  (sx_failed_read_cell_refuted, sx_failed_read_late_refuted, sx_setup_symbols_after_failure_refuted,
+   sx_successful_read_without_setup_refuted, sx_reread_then_setup_restores).
